@@ -513,7 +513,19 @@ def rel_err(a, b):
     return float(np.abs(a - b).max() / max(np.abs(a).max(), np.abs(b).max(), 1e-300))
 
 
-def guarded_worker(pid, body, sc):
+def special_fields(ny, nx):
+    """sources a data-dependent branch may single out (used when a run leaves the affine domain: the
+    NonAffine event says the result is not an affine function of the source; these make it visible)"""
+    rng = np.random.default_rng(21)
+    r = rng.standard_normal((ny, nx))
+    half = np.zeros((ny, nx))
+    half[:, : max(1, nx // 2)] = 1.75
+    one = np.zeros((ny, nx))
+    one.flat[(ny * nx) // 2] = 1.0
+    return [np.full((ny, nx), 1.75), half, r * 1e-12, r * 1e-9, r - r.mean(), one, r]
+
+
+def guarded_worker(pid, body, sc, on_nonaffine=None):
     """Common worker scaffold: body(run, sym, sc) fills run (and run.cex)."""
     import traceback
 
@@ -527,7 +539,17 @@ def guarded_worker(pid, body, sc):
         body(run, sym, sc)
         twin_for(run, sym.sp, "%s scenario" % pid)
     except af.NonAffine as e:
-        run.errors.append("solver left the affine domain: %s (scenario %s)" % (e, sc))
+        recs = on_nonaffine(sc, e) if on_nonaffine else None
+        if recs:
+            # a data-dependent branch / threshold / non-linear operation on the source: a violation candidate
+            # for this property too; the replay runs the property's own oracle on special sources
+            run.queries["sat"] += 1
+            o = run.ob("result_is_an_affine_function_of_the_source")
+            o["queries"] += 1
+            o["sat"] += 1
+            run.cex += recs
+        else:
+            run.errors.append("solver left the affine domain: %s (scenario %s)" % (e, sc))
     except Exception:
         run.errors.append("exception in scenario %s: %s" % (sc, traceback.format_exc()[-1800:]))
     return run.export()
